@@ -60,6 +60,12 @@ var active *schedule
 func YieldPoint(site string) {
 	s := active
 	if s == nil || !s.enabled {
+		if RaceBuild {
+			// the race-detector pass has no seeded scheduler; let the other
+			// goroutines of a concurrent phase in, so that accesses that are not
+			// ordered by a lock actually come in both orders
+			runtime.Gosched()
+		}
 		return
 	}
 	p := &parkedG{ch: make(chan struct{}), site: site, goid: goID()}
